@@ -195,7 +195,7 @@ func loadKnown() []knownFinding {
 	if os.Getenv("VERIF_IGNORE_KNOWN") != "" {
 		return nil
 	}
-	b, err := os.ReadFile(filepath.Join(root, "known_findings.json"))
+	b, err := os.ReadFile(envOr("VERIF_KNOWN_FILE", filepath.Join(root, "known_findings.json")))
 	if err != nil {
 		return nil
 	}
